@@ -8,6 +8,9 @@ os.makedirs(dst, exist_ok=True)
 patch = subprocess.check_output(["git", "-C", wt, "diff", "--", "bempp_cl"]).decode()
 open(os.path.join(dst, "patch.diff"), "w").write(patch)
 shutil.copy(os.path.join(wt, "demo.py"), os.path.join(dst, "demo.py"))
+for extra in ("demo_stub",):
+    if os.path.isdir(os.path.join(wt, extra)):
+        shutil.copytree(os.path.join(wt, extra), os.path.join(dst, extra), dirs_exist_ok=True)
 if os.path.exists(os.path.join(wt, "meta.txt")):
     shutil.copy(os.path.join(wt, "meta.txt"), os.path.join(dst, "author_notes.txt"))
 conf = open("/tmp/seed/%s.confirm.log" % sid).read() if os.path.exists("/tmp/seed/%s.confirm.log" % sid) else ""
